@@ -242,6 +242,7 @@ def main(argv):
             "known_findings_seen": dict(ctx.known_hits),
             "skipped": ctx.skipped,
             "tables_regenerated_differ": st.tables_changed,
+            "tables_not_translatable": st.tables_unavailable,
         }
         coverage.update(ctx.notes)
         core.write_evidence(prop, tier, seed, coverage, getattr(mod, "ASSUMPTIONS", []), time.time() - t0, len(violations))
